@@ -50,6 +50,7 @@ MonInit ==
     seq |-> 0, roundSeq |-> 0,
     idle |-> 0,            \* consecutive progress-free, non-blocking iterations
     cbSince |-> FALSE,     \* a callback ran since the last wait entry
+    prevW |-> <<FALSE, <<0, 0>>, 0>>,   \* previous wait entry of this iv_main: <<valid, clock, registration seq>>
     ctx |-> "loop",        \* kind of the last callback / API object
     fatal |-> "",
     blocked |-> FALSE,     \* the loop thread sits in a wait that found nothing
@@ -214,8 +215,13 @@ WaitEnter(m0, e) ==
       mx == IF hasT THEN MinExp(m3) ELSE None
       slack == IF MsGranular(e.p) /\ ~IsNone(e.to) THEN <<0, 999999>> ELSE <<0, 1>>
       m4 == Chk(m3, hasT, ~IsNone(eff) /\ TsLeq(eff, TsAdd(TsMax(e.now, mx), slack)), "C04:oversleep")
+      (* a timer that was registered and due when the previous wait was entered has been through
+         a timer pass since (the wait returned, the loop came round): it cannot still be waiting *)
+      starved == {t \in RegTimers(m4) : m4.tm[t].seq <= m4.prevW[3] /\ TsLeq(m4.tm[t].exp, m4.prevW[2])}
+      m4b == Chk(m4, m4.prevW[1] /\ m4.inMain, starved = {}, "C04:starved")
       (* spin: consecutive iterations that neither blocked nor ran a callback *)
-      m5 == [m4 EXCEPT !.idle = IF m4.cbSince THEN 0 ELSE @ + 1, !.cbSince = FALSE]
+      m5 == [m4b EXCEPT !.idle = IF m4b.cbSince THEN 0 ELSE @ + 1, !.cbSince = FALSE,
+                        !.prevW = <<TRUE, e.now, m4b.seq>>]
   IN Chk(m5, m5.idle >= 2, m5.idle < 6, "C07:spin")
 
 Block(m, e) ==
@@ -257,7 +263,8 @@ WaitRet(m, e) ==
 
 MainBegin(m) ==
   [Chk(m, TRUE, ~m.inMain, "C07:nested") EXCEPT !.inMain = TRUE, !.quit = FALSE, !.everMain = TRUE,
-                                                !.roundSeq = m.seq, !.idle = 0, !.cbSince = FALSE]
+                                                !.roundSeq = m.seq, !.idle = 0, !.cbSince = FALSE,
+                                                !.prevW = <<FALSE, <<0, 0>>, 0>>]
 
 MainEnd(m0) ==
   LET m == DueCheck(m0) IN
